@@ -33,6 +33,7 @@ var table = map[string]entry{
 	"C15": {"exploration", checks.C15},
 	"C16": {"exploration", checks.C16},
 	"C17": {"exploration", checks.C17},
+	"C19": {"exploration", checks.C19},
 }
 
 func main() {
